@@ -478,11 +478,15 @@ class WiredNetworkInterface(NetworkInterface, ABC):
         This method removes the association between the network interface and its connected Link. It updates the
         connected Link's endpoints to reflect the disconnection.
         """
+        if not self._connected_link:
+            return
         if self._connected_link.endpoint_a == self:
             self._connected_link.endpoint_a = None
         if self._connected_link.endpoint_b == self:
             self._connected_link.endpoint_b = None
         self._connected_link = None
+        # an interface cannot be enabled without a link (see enable()), so it goes down with the link
+        self.disable()
 
     def send_frame(self, frame: Frame) -> bool:
         """
